@@ -403,6 +403,12 @@ func randText(rng *rand.Rand, n int, class int) []uint16 {
 				v = uint16(0xE000 + rng.Intn(0x1FFE))
 			}
 			u = append(u, v)
+		case 4: // Latin-1 only: every code unit below 0x100, some at or above 0x80
+			if rng.Intn(3) == 0 {
+				u = append(u, uint16(0xa0+rng.Intn(0x60)))
+			} else {
+				u = append(u, uint16(0x20+rng.Intn(0x5f)))
+			}
 		case 3: // unpaired surrogates (cut-off pairs, stray halves), also as the very last code unit
 			switch rng.Intn(4) {
 			case 0:
@@ -492,7 +498,7 @@ func init() {
 						if tl > 2 {
 							tl = rng.Intn(tl + 1)
 						}
-						recs = append(recs, mlucRec{l, ctry, randText(rng, tl, rng.Intn(4))})
+						recs = append(recs, mlucRec{l, ctry, randText(rng, tl, rng.Intn(5))})
 					}
 					if rng.Intn(6) == 0 && nrec > 1 { // duplicate (language, country) key: last one wins
 						recs[nrec-1].lang, recs[nrec-1].country = recs[0].lang, recs[0].country
